@@ -7,7 +7,7 @@ Obs == ndJsonDeserialize("obs.ndjson")
 Q(k) == LET q == Obs[k].q IN [q EXCEPT !.jobs = [i \in DOMAIN q.jobs |-> [re |-> q.jobs[i].re, ok |-> q.jobs[i].ok, matches |-> Rng(q.jobs[i].matches)]]]
 Ans(k) == LET a == Obs[k].targets IN [error |-> a.error, active |-> a.active, stats |-> a.stats, dropped |-> a.dropped]
 Differs(k) == Ans(k) # Targets(Obs[k].w, Q(k)) \/ Obs[k].runtime # RuntimeInfo(Obs[k].w)
-Viol == UNION {{[idx |-> k, which |-> w] : w \in Guarantees(Obs[k].w, Q(k), Ans(k))} : k \in DOMAIN Obs}
+Viol == UNION {{[idx |-> k, which |-> w] : w \in Guarantees(Obs[k].w, Q(k), Ans(k)) \cup (IF Obs[k].mutated THEN {"query-changes-the-discovery-lists"} ELSE {})} : k \in DOMAIN Obs}
 ASSUME ndJsonSerialize("viol.ndjson", SetToSeq(Viol))
 ASSUME ndJsonSerialize("differs.ndjson", SetToSeq({[idx |-> k] : k \in {k \in DOMAIN Obs : Differs(k)}}))
 =============================================================================
